@@ -4,6 +4,12 @@ Decided (see DESIGN.md section 3, C12): the clauses that are data (R12.1-R12.3, 
 exhaustively; option liveness (R12.4); stop-handling guard parity on the full truth
 table (R12.5); option forwarding parity of sibling wrappers (R12.6).
 Not decided: the byte/str translation code itself.
+
+Added in build round 2 (see DESIGN.md section 3, round-2 table):
+R12.2 every codon enumeration is the product of bases in TCAG (UCAG) order, zipped with the code
+R12.4b inside a translation entry point every call of another entry point of the family (get_translation, trim_stop_codon(s), has_terminal_stop) is given ...
+R12.8 every complement implementation derives its result from the complement table (a lookup through the table-built converter / str.translate, or ...
+R12.9 index arrays are typed by the size of the alphabet (get_array_type(len(<alphabet>))), never by the size of the data being encoded: a dtype that grows ...
 """
 
 from __future__ import annotations
